@@ -180,3 +180,22 @@ class Ctx:
         if self.broken:
             raise AnalysisBroken('; '.join(self.broken))
         return 0
+
+
+class RuleAlias:
+    """Proxy that lets one property's check reuse another property's rule group under its own rule ids
+    (e.g. the Buffer window rules C07.R* run inside C06 as C06.B*): everything is recorded in the real Ctx."""
+    def __init__(self, ctx, src_prefix, dst_prefix):
+        self._ctx, self._src, self._dst = ctx, src_prefix, dst_prefix
+
+    def _m(self, rule):
+        return self._dst + rule[len(self._src):] if rule.startswith(self._src) else rule
+
+    def rule(self, rule, doc, floor=1):
+        return self._ctx.rule(self._m(rule), doc, floor)
+
+    def ob(self, rule, site, ok, what, where=None, detail=None):
+        return self._ctx.ob(self._m(rule), site, ok, what, where, detail)
+
+    def __getattr__(self, name):
+        return getattr(self._ctx, name)
